@@ -162,6 +162,25 @@ def _one(d, ctx, kinds, **gen_kw):
     require(err <= tol_for(case), 'posterior-is-bayes-rule',
             f'max |predict - Bayes| = {err:.3e}', kind=case.kind)
 
+    if case.kind == 'cacgmm':
+        # the documented second return value: the quadratic forms z^H B^-1 z
+        aff_q, q = ctx.lib(model.predict, case.y, return_quadratic_form=True,
+                           source_activity_mask=mask)
+        require(np.array_equal(aff_q, post), 'return_quadratic_form-changes-posterior', '')
+        require(np.shape(q) == case.aff_shape, 'quadratic_form-shape', f'{np.shape(q)}')
+        z = mm.normalize(np.asarray(case.y, dtype=np.complex128))
+        cov = mm.params(model, case)['cacg_covariance']
+        lam = np.asarray(model.cacg.covariance_eigenvalues, dtype=np.float64)
+        well = lam.min() > 1e-6 * lam.max()
+        if well and not case.meta['single']:
+            for idx in np.ndindex(*case.lead):
+                for k in range(case.K):
+                    ref_q = np.einsum('nd,nd->n', z[idx].conj(),
+                                      np.linalg.solve(cov[idx][k], z[idx].T).T).real
+                    nz = np.linalg.norm(z[idx], axis=-1) > 0
+                    require(np.allclose(np.asarray(q)[idx][k][nz], ref_q[nz], rtol=1e-6),
+                            'quadratic_form-is-not-z^H-B^-1-z', f'idx={idx} k={k}')
+
     # fit_predict returns the same array
     fp = ctx.lib(mm.fit, case, method='fit_predict', allow=mm.EXPLICIT)
     check_valid(fp, case, 'fit_predict', mask=mask)
